@@ -2995,7 +2995,7 @@ class Session(object):
             if delimiter_index > 0:
                 addr = addr[:delimiter_index]
             targeted_query = HostTargetingStatement(query_future.query, addr)
-            query_future.query_plan = query_future._load_balancer.make_query_plan(self.keyspace, targeted_query)
+            query_future.query_plan = iter(query_future._load_balancer.make_query_plan(self.keyspace, targeted_query))
         except Exception:
             log.debug("Failed querying analytics master (request might not be routed optimally). "
                       "Make sure the session is connecting to a graph analytics datacenter.", exc_info=True)
